@@ -50,7 +50,7 @@ OWNERS = [
     (r"konst/src/macros/parser_method\.rs", ["C18"]),
     (r"konst/src/macros/parsing_macros\.rs", ["C19", "C12", "C13", "C14", "C18"]),
     (r"konst/src/macros/bytes_fn_macros\.rs", ["C05", "C04", "C14"]),
-    (r"konst_proc_macros", ["C18"]),
+    (r"konst_proc_macros", ["C18", "C17"]),
     (r"konst/src/(cmp|macros/(const_eq|const_ord|declare_cmp|impl_cmp|assert_cmp|polymorphism)|__for_cmp|polymorphism)", ["C16"]),
     (r"konst/src/macros/minmax_macros\.rs", ["C19"]),
     (r"konst/src/(option|result)\.rs|konst_kernel/src/macros/(option|result)_macros_\.rs|konst/src/macros/unwrapping\.rs", ["C19"]),
